@@ -7,6 +7,7 @@ can be compiled (`lake build driver`).
 import MVoro.Model.Num
 import MVoro.Model.InSphere
 import MVoro.Gen.InSphere
+import MVoro.Model.Oracle
 
 open MVoro
 
@@ -29,6 +30,62 @@ def opInsphere (args : List String) : String :=
       s!"{Int.sign r} {g} {r} {Ref.orient a b c d} " ++ " ".intercalate (sg.map toString)
     | _ => "bad-op"
 
+/-- parse `k` float tokens -/
+def takeF (k : Nat) (ts : List String) : Option (List Rat × List String) :=
+  if ts.length < k then none else
+  match (ts.take k).mapM parseF? with
+  | some xs => some (xs, ts.drop k)
+  | none => none
+
+def takeV3 (ts : List String) : Option (Q3 × List String) :=
+  match takeF 3 ts with
+  | some ([a, b, c], rest) => some (⟨a, b, c⟩, rest)
+  | _ => none
+
+def takeV3s : Nat → List String → Option (List Q3 × List String)
+  | 0, ts => some ([], ts)
+  | n + 1, ts => do
+    let (v, ts) ← takeV3 ts
+    let (vs, ts) ← takeV3s n ts
+    pure (v :: vs, ts)
+
+/-- `dim periodic anchor width n gens…` -/
+def parseTessIn (ts : List String) : Option (Oracle.TessIn × List String) :=
+  match ts with
+  | dim :: per :: rest => do
+    let dim ← dim.toNat?
+    let (anchor, rest) ← takeV3 rest
+    let (width, rest) ← takeV3 rest
+    match rest with
+    | n :: rest =>
+      let n ← n.toNat?
+      let (gs, rest) ← takeV3s n rest
+      pure ({ dim := dim, periodic := per == "1", anchor := anchor, width := width, gens := gs.toArray }, rest)
+    | _ => none
+  | _ => none
+
+def parseMask (n : Nat) (ts : List String) : Option (List Bool × List String) :=
+  match ts with
+  | "M" :: "-" :: rest => some (List.replicate n true, rest)
+  | "M" :: m :: rest => some (m.toList.map (· == '1'), rest)
+  | _ => none
+
+/-- op `tess`: exact cells of all constructed generators.
+flags after the mask: `brute` (also build without early termination), `verts` (list vertices) -/
+def opTess (args : List String) : String :=
+  match parseTessIn args with
+  | none => "bad-op"
+  | some (t0, rest) =>
+    match parseMask t0.gens.size rest with
+    | none => "bad-op"
+    | some (mask, rest) =>
+      let t := t0.norm
+      let brute := rest.contains "brute"
+      let verts := rest.contains "verts"
+      let cells := (List.range t.gens.size).filterMap fun i =>
+        if mask.getD i false then some (Oracle.cellStr t (Oracle.buildCell t i brute) verts) else none
+      s!"NC {cells.length} " ++ " ".intercalate cells ++ s!" T {ratStr (Oracle.boxVolume t)}"
+
 def handle (line : String) : String :=
   let line := line.trimAscii.toString
   let inputPart := (line.splitOn " | ").headD ""
@@ -36,6 +93,8 @@ def handle (line : String) : String :=
   | op :: id :: _fam :: args =>
     let res := match op with
       | "insphere" => opInsphere args
+      | "tess" => opTess args
+      | "cells" => opTess args
       | _ => "unknown-op"
     id ++ " " ++ res
   | _ => "? bad-line"
